@@ -3,6 +3,9 @@ pub mod c01_net;
 pub mod c02;
 pub mod c02_net;
 pub mod c04;
+pub mod c05;
+pub mod c05_ws;
+pub mod c06;
 pub mod c07;
 pub mod c08;
 pub mod c08_net;
@@ -64,6 +67,33 @@ pub fn all() -> Vec<PropDef> {
             ],
             run: c04::run,
             replay: c04::replay,
+            child: None,
+        },
+        PropDef {
+            id: "C05",
+            level: "fault_enumeration",
+            rule: c05::RULE,
+            assumptions: &[
+                "the oracle is the byte-exact stream grammar alone; it does not demand an error where the transport completes an interrupted frame itself (BufWriter remainder, WebSocket sink buffering a whole message)",
+                "payloads up to 12 MiB; the write-blocking scenarios rely on the kernel's 4 MiB loopback send-buffer cap plus a 4 KiB peer receive buffer",
+                "stall durations are generated around the configured timeout; which side of the race occurs is recorded, not assumed",
+            ],
+            run: c05::run,
+            replay: c05::replay,
+            child: None,
+        },
+        PropDef {
+            id: "C06",
+            level: "fault_enumeration",
+            rule: c06::RULE,
+            assumptions: &[
+                "a 10 s watchdog on obligations whose normal latency is milliseconds is the hang signal",
+                "after an RST (or a close with unread data, which the kernel turns into an RST) already-answered calls may still fail: the kernel may discard received-but-unread data; either outcome is accepted for answered calls, never another call's body",
+                "in a timeout race either the own response or the timeout error is accepted",
+                "pending-map emptiness is read through the verif-hooks accessor verif_pending_len()",
+            ],
+            run: c06::run,
+            replay: c06::replay,
             child: None,
         },
         PropDef {
